@@ -24,6 +24,15 @@ def streams(R, nstreams):
             if v["kind"] in ("comment", "comment-col1", "continuation", "blankline", "semi2nl"):
                 pool.append(v["src"])
     out = []
+    # systematically: every command that carries a comment, a continuation or a here-document, followed by one more command
+    # (what such a command leaves behind must be exactly the next command), and preceded by one
+    special = [t for t in pool if "#" in t or "\\\n" in t or "<<" in t]
+    special = rnd.sample(special, min(len(special), 1500 if R.tier == "quick" else len(special)))
+    for j, t in enumerate(special):
+        segs = [dict(kind="cmd", text=t), dict(kind="cmd", text="zz y\n")]
+        if j % 2:
+            segs.insert(0, dict(kind="cmd", text="a0\n"))
+        out.append(dict(id="p%d" % j, segs=segs, source="scanner" if j % 2 == 0 else "sreader"))
     for i in range(nstreams):
         segs = []
         for _ in range(rnd.randint(2, 6)):
